@@ -218,6 +218,7 @@ def run_slurm(rng, malformed=False):
     sa, sa_listed = gen_sacct(rng, ids, pool, malformed)
     sqrc, sarc = gen_rc(rng), gen_rc(rng)
     fakeenv.SUB.set(squeue=(sq, "", sqrc), sacct=(sa, "", sarc))
+    fakeenv.SUB.filters["sacct"] = fakeenv.sacct_reply(ids)
     mon = []
     try:
         code, st = adapters()["slurm"].check_jobs(list(ids))
@@ -233,10 +234,26 @@ def run_slurm(rng, malformed=False):
             for jid, s in sq_listed:
                 if jid in ids and s is not None:
                     seen[jid] = s
+        in_queue = dict(seen)
         if sacct_called and sarc == 0:
+            # the accounting record speaks only for the jobs the queue did not list
             for jid, s in sa_listed:
-                if jid in ids and s is not None:
+                if jid in ids and s is not None and jid not in in_queue:
                     seen[jid] = s
+        if in_queue and not malformed:
+            # what the queue says about a job stands: the same query with an accounting command
+            # that knows nothing must give these jobs the same states
+            fakeenv.SUB.set(squeue=(sq, "", sqrc), sacct=("\n\n", "", 0))
+            try:
+                _c2, st2 = adapters()["slurm"].check_jobs(list(ids))
+            except IndexError:
+                st2 = {}
+            for jid in in_queue:
+                if jid in st2 and st2[jid] is not None and st.get(jid) != st2[jid]:
+                    mon.append(("queue-answer-kept", "slurm job %s is listed %s by squeue (-> %s) but is reported "
+                                "%s after the accounting query (sacct row: %s)"
+                                % (jid, in_queue[jid], st2[jid].name, getattr(st.get(jid), "name", None),
+                                   [s for j, s in sa_listed if j == jid][-1:])))
         for jid in ids:
             res = st.get(jid)
             if jid not in seen:
